@@ -41,4 +41,10 @@ CHECKS = {
         "note": "Trusted: harness/src/refzinc.rs (grammar transcription, DESIGN Appendix A), harness value model, chrono-tz.",
         "design_ref": "DESIGN.md §4 C04, Appendix A",
     },
+    "C03": {
+        "technique": "crash/abort/fuel monitor in isolated worker processes: hostile texts through every decoder entry point and a hostile reader family; logical-step fuel via hook H1; write-ahead progress marker for abort attribution",
+        "level": "Held on ~9e5 (quick) / ~3e7 (thorough) decoder executions: ladders to depth 1e5, all prefixes of ~2e5 documents (thorough), mutants, bytes. Sampling; termination is a bounded-step restatement.",
+        "note": "Trusted: hook H1 sits in every loop that can spin (Scanner::read, both Lexer::read); the fuel bound 8*len+256 (observed max 3 steps/byte).",
+        "design_ref": "DESIGN.md §4 C03, §2 H1",
+    },
 }
